@@ -157,3 +157,46 @@ func TestStateSwapUnchanged(t *testing.T) {
 		}
 	})
 }
+
+// TestKeyedContextReassert: SetContext(ctx,false) re-asserted while other calls notice that the
+// context was cancelled and clear it.
+func TestKeyedContextReassert(t *testing.T) {
+	k := keyed.NewKeyed[int, int](func(key int) (keyed.Routine, int) {
+		return func(ctx context.Context) error { <-ctx.Done(); return nil }, key
+	})
+	for round := 0; round < 40; round++ {
+		ctx, cancel := context.WithCancel(context.Background())
+		k.SetContext(ctx, true)
+		k.SetKey(round%3, true)
+		cancel()
+		par(4, func(i int) {
+			for j := 0; j < 50; j++ {
+				if i%2 == 0 {
+					k.SetContext(ctx, false)
+				} else {
+					k.SyncKeys([]int{j % 3}, false)
+					k.RestartRoutine(j % 3)
+				}
+			}
+		})
+	}
+}
+
+// TestAwaitCancelVsSetResult: cancel channel closed by one goroutine while another resolves.
+func TestAwaitCancelVsSetResult(t *testing.T) {
+	ctx := context.Background()
+	for round := 0; round < 400; round++ {
+		p := promise.NewPromise[int]()
+		ch := make(chan struct{})
+		par(3, func(i int) {
+			switch i {
+			case 0:
+				_, _ = p.AwaitWithCancelCh(ctx, ch)
+			case 1:
+				close(ch)
+			case 2:
+				p.SetResult(round, errors.New("x"))
+			}
+		})
+	}
+}
